@@ -55,6 +55,7 @@ structure Env where
   jr : Journal
   crlf : Bool
   fx : Fixes
+  utf16 : Bool             -- the tree's columns count UTF-16 units (fix-utf16-columns.diff)
 
 /-- The end of a range is the position just after a line's CR (CRLF documents). -/
 def afterCR (e : Env) (l c : Nat) : Bool :=
@@ -81,64 +82,101 @@ def isTagRange (e : Env) (r : Rng) : Bool :=
     tx.comments.flatMap (·.tags) ++ tx.postings.flatMap (·.tags)
   all.any (fun t => t.range == r)
 
-/-- Judge one implementation range against the spec; `h` says what the range is a range of
-    (kind, the lexeme named by the tree, the position range the code started from). -/
-def judge (e : Env) (feature : String) (a : Acc) (r : NRange) (foreign : Bool) (h : Option Hit) : Acc := Id.run do
-  let a := { a with checked := a.checked + 1 }
-  if foreign then return a.fail "" s!"{feature}: location in another document"
+/-- Judge one range against the spec.  `h` says what the range is a range of (kind, the lexeme
+    named by the tree, the position range the code started from).  `none` = passes;
+    `some (id, why)` = fails, `id` the known finding whose guard names this shape ("" if none). -/
+def judgeCore (e : Env) (feature : String) (r : NRange) (h : Option Hit) : Option (String × String) := Id.run do
   let rng := (h.map (·.rng)).getD Rng.zero
   let kind := (h.map (·.kind)).getD Kind.other
   let name := (h.map (·.name)).getD []
-  let nonBmpB := h.isSome && (runeBefore e.raw nonBmp rng.start || runeBefore e.raw nonBmp rng.stop)
   let tagLike := kind == .tag || kind == .tagValue || isTagRange e rng
   if !rangeOK e.doc r then
     let known :=
       if h.isSome && rng.stop == Pos.zero && (kind == .account || kind == .commodity) then "directive-name-no-end"
-      else if nonBmpB then "utf16-columns"
       else if tagLike && runeBefore e.raw nonAscii rng.stop then "tag-byte-offsets"
+      else if kind == .payee && !payeeCanonical e h.get! then "payee-estimate"
       else if e.crlf && (afterCR e r.sl r.sc || afterCR e r.el r.ec) then "crlf-line-end"
       else ""
-    return a.fail known s!"{feature}: range {showR r} is not a well-formed range of the document"
+    return some (known, s!"{feature}: range {showR r} is not a well-formed range of the document")
   -- on target?
   let needs := match kind with
     | .transaction | .directive => false
     | .other => feature == "link"
     | _ => true
-  if !needs then return a
-  let some s := slice e.doc r | return a.fail "" s!"{feature}: no single-line slice for {showR r}"
+  if !needs then return none
+  let some s := slice e.doc r | return some ("", s!"{feature}: no single-line slice for {showR r}")
   let sb := txtBytes s
-  let bad (known : String) (what : String) : Acc :=
-    a.fail (if nonBmpB then "utf16-columns" else known)
-      s!"{feature}: range {showR r} reported for {what} covers \"{String.ofList s}\""
+  let bad (known : String) (what : String) : Option (String × String) :=
+    some (known, s!"{feature}: range {showR r} reported for {what} covers \"{String.ofList s}\"")
   match kind with
   | .account =>
-    if sb == name then return a
+    if sb == name then return none
     return bad (if sb == name ++ [32] then "account-trailing-blank" else "") "an account"
   | .commodity =>
-    if sb == name || sb == [34] ++ name ++ [34] then return a
+    if sb == name || sb == [34] ++ name ++ [34] then return none
     return bad (if txtBytes (trimR s) == name then "commodity-text-trailing-blank" else "") "a commodity"
   | .payee =>
-    if sb == name then return a
+    if sb == name then return none
     return bad (if !payeeCanonical e h.get! then "payee-estimate" else "") "a payee"
   | .tag =>
-    if sb == name then return a
+    if sb == name then return none
     return bad (if runeBefore e.raw nonAscii rng.stop then "tag-byte-offsets" else "") "a tag name"
   | .tagValue =>
-    if sb == name then return a
+    if sb == name then return none
     return bad (if runeBefore e.raw nonAscii rng.stop then "tag-byte-offsets"
                 else if txtBytes (trimL s) == name then "tag-value-leading-blank" else "") "a tag value"
   | .date =>
-    if isDateText s then return a
+    if isDateText s then return none
     return bad "" "a date"
   | .amount =>
-    if !s.isEmpty && s.head? != some ' ' && s.getLast? != some ' ' then return a
+    if !s.isEmpty && s.head? != some ' ' && s.getLast? != some ' ' then return none
     return bad (if !(trimR s).isEmpty && (trimR s).head? != some ' ' then "amount-trailing-blank" else "") "an amount"
   | .other =>
     if feature == "link" then
-      if sb == name then return a
+      if sb == name then return none
       return bad (if !e.fx.link && "include".toList.isPrefixOf s then "link-covers-keyword" else "") "an include path"
-    return a
-  | _ => return a
+    return none
+  | _ => return none
+
+/-- The range the code would have sent had it converted the rune columns of `h.rng` to UTF-16
+    units with the line text (for payees only the start is a rune column: the length is
+    `UTF16Len(payee)` already). -/
+def corrected (e : Env) (h : Hit) : Option NRange :=
+  let conv (p : Pos) : Option (Nat × Nat) :=
+    if p.line = 0 || p.col = 0 then none else
+    match e.raw[p.line - 1]? with
+    | some ln => if p.col - 1 ≤ ln.length then some (p.line - 1, u16len (ln.take (p.col - 1))) else none
+    | none => none
+  match conv h.rng.start with
+  | none => none
+  | some (sl, sc) =>
+    if h.kind == .payee then some ⟨sl, sc, sl, sc + u16lenB h.name⟩
+    else match conv h.rng.stop with
+      | some (el, ec) => some ⟨sl, sc, el, ec⟩
+      | none => none
+
+/-- Judge one implementation range.  A failure no specific guard explains is attributed to
+    `utf16-columns` only if a non-BMP rune precedes the range on its line AND the range is
+    right once its rune columns are converted to UTF-16 units (or what is then left is
+    explained by another guard). -/
+def judge (e : Env) (feature : String) (a : Acc) (r : NRange) (foreign : Bool) (h : Option Hit) : Acc := Id.run do
+  let a := { a with checked := a.checked + 1 }
+  if foreign then return a.fail "" s!"{feature}: location in another document"
+  match judgeCore e feature r h with
+  | none => return a
+  | some (k, why) =>
+    if k != "" then return a.fail k why
+    match h with
+    | none => return a.fail "" why
+    | some hit =>
+      let nonBmpB := runeBefore e.raw nonBmp hit.rng.start || runeBefore e.raw nonBmp hit.rng.stop
+      if e.utf16 || !nonBmpB then return a.fail "" why
+      match corrected e hit with
+      | none => return a.fail "" why
+      | some r' =>
+        match judgeCore e feature r' h with
+        | none => return a.fail "utf16-columns" why
+        | some (k', _) => if k' == "" then return a.fail "" why else return (a.fail "utf16-columns" why).fail k' why
 
 def judgeList (e : Env) (feature : String) (a : Acc) (impl : Array Json) (hits : List Hit) : Acc := Id.run do
   let mut a := a
@@ -167,7 +205,7 @@ def doc (j : Json) : Json := Id.run do
   let impl := jget j "impl"
   let fxj := jget j "fx"
   let fx : Fixes := ⟨jbool fxj "clamp", jbool fxj "link", jbool fxj "fold"⟩
-  let e : Env := { doc := text, raw := lines text, jr := jr, crlf := text.contains '\r', fx := fx }
+  let e : Env := { doc := text, raw := lines text, jr := jr, crlf := text.contains '\r', fx := fx, utf16 := jbool fxj "utf16" }
   -- model
   let mDiag := diagnostics perrs diagIn loadIn
   let mSym := documentSymbols jr
